@@ -437,6 +437,8 @@ def contains(I, container: Any, x: Any, st: State) -> Any:
             return x in container
         return _or([eq(I, x, y) for y in container])
     if isinstance(container, SDict):
+        if getattr(container, "sym_exact", False) and not container.entries and (isinstance(x, str) or (V.is_z3(x) and x.sort() == z3.StringSort())):
+            return _or([eq(I, x, k) for k, _ in container.sym_pairs])
         if _hashable_const(x):
             if x in container.entries:
                 return True
@@ -477,6 +479,11 @@ def contains(I, container: Any, x: Any, st: State) -> Any:
 
 def _num_rel(op: ast.cmpop, a: Any, b: Any) -> Any:
     py = {ast.Lt: lambda x, y: x < y, ast.LtE: lambda x, y: x <= y, ast.Gt: lambda x, y: x > y, ast.GtE: lambda x, y: x >= y}
+    for x in (a, b):
+        if not V.is_z3(x) and not isinstance(x, (int, float, bool)):
+            # an operand the engine has no numeric reading for (an opaque result, None, a heap object): outside the subset -
+            # the contract answers undecided instead of the checker crashing inside z3's coercion
+            raise OutsideSubset(f"ordering on {type(x).__name__}")
     if not V.is_z3(a) and not V.is_z3(b):
         return py[type(op)](a, b)
     za = a if V.is_z3(a) else None
@@ -805,6 +812,23 @@ def subscript(I, o: Any, k: Any, st: State):
                 yield s2, Raised(SExc("KeyError"))
             else:
                 yield st, Raised(SExc("KeyError", note=repr(k)))
+            return
+        if getattr(o, "sym_exact", False) and not o.entries and V.is_z3(k) and k.sort() == z3.StringSort():
+            # read by a symbolic key from a dict whose keys are exactly the symbolic keys stored so far: the latest store
+            # under an equal key wins; no equal key => KeyError
+            cur = st
+            for j in range(len(o.sym_pairs) - 1, -1, -1):
+                nxt = None
+                ki = o.sym_pairs[j][0]
+                for s2, b in I.branch(cur, eq(I, k, ki)):
+                    if b:
+                        yield s2, s2.resolve(o).sym_pairs[j][1]  # the dict's copy that belongs to this (possibly forked) state
+                    else:
+                        nxt = s2
+                if nxt is None:
+                    return
+                cur = nxt
+            yield cur, Raised(SExc("KeyError"))
             return
         raise OutsideSubset("symbolic key into a dict")
     if isinstance(o, SymSeq):
